@@ -8,7 +8,8 @@ PROP = 'C08'
 LEVEL = 'exploration'
 MODES = ['DEFAULT', 'KARATSUBA', 'ALTER', 'DADDA', 'WALLACE', 'POW2_M1']
 ADD_FN = {'DEFAULT': 'add_mul', 'KARATSUBA': 'add_mul_karatsuba', 'ALTER': 'add_mul_alter', 'DADDA': 'add_mul_dadda',
-          'WALLACE': 'add_mul_wallace', 'POW2_M1': 'add_mul_pow2_m1'}
+          'WALLACE': 'add_mul_wallace', 'POW2_M1': 'add_mul_pow2_m1', 'EFFICIENT_KARATSUBA': 'add_mul_karatsuba_with_efficient_sum', 'SIMPLE_KARATSUBA': 'add_simple_karatsuba',
+          'DADDA_KARATSUBA': 'add_dadda_karatsuba'}
 RULE = ('generate_mul / add_mul* for all width pairs (n,m) <= (5,5) (thorough (6,6)) x 6 modes x both endiannesses on ALL operand values; widths that '
         'reach the Karatsuba recursion and padding (18, 20, 21, 24x15, 40) and generate_square / add_square* for n = 1..8 exhaustively and the '
         'squarer split widths (47..54) on sampled operand values incl. 0, all-ones and single bits; operands = primary inputs or arbitrary '
@@ -25,6 +26,16 @@ def design(tier, seed):
     tlc.cleanup(r['workdir'])
     return {'states': r['distinct'], 'transitions': r['generated'],
             'runs': [f'ArithLemmas (bit-sequence add/shift/mul/compare/sqrt = integer arithmetic, all a,b < 32): {r["distinct"]} states, {r["wall_s"]:.1f}s']}
+
+
+def _fn(ar, mode):
+    from cirbo.synthesis.generation.arithmetics import multiplication
+
+    return getattr(ar, ADD_FN[mode], None) or getattr(multiplication, ADD_FN[mode])
+
+
+# Karatsuba multipliers that are reachable only as add_* functions (not through a MulMode)
+ADD_ONLY = ['EFFICIENT_KARATSUBA', 'SIMPLE_KARATSUBA', 'DADDA_KARATSUBA']
 
 
 def sources(tier, seed, ctx):
@@ -60,6 +71,14 @@ def sources(tier, seed, ctx):
             if rng.random() < 0.5:
                 n, m = m, n
             srcs.append({'fn': 'mul', 'n': n, 'm': m, 'mode': mode, 'big': rng.random() < 0.5, 'gen': True, 'host': None})
+    for mode in ADD_ONLY:
+        for n in range(1, 5 if tier == 'quick' else 7):
+            for m in range(1, 5 if tier == 'quick' else 7):
+                for big in (False, True):
+                    srcs.append({'fn': 'mul', 'n': n, 'm': m, 'mode': mode, 'big': big, 'gen': False,
+                                 'host': {'seed': rng.randrange(10**6), 'ni': 3, 'ng': 4} if (n + m) % 3 == 0 and n + m <= 5 else None})
+        for n, m, big in [(18, 18, True), (20, 17, False), (21, 24, True)] + ([] if tier == 'quick' else [(33, 33, True), (40, 20, False)]):
+            srcs.append({'fn': 'mul', 'n': n, 'm': m, 'mode': mode, 'big': big, 'gen': False, 'host': None})
     # nested Karatsuba recursion (max width >= 33) in both endiannesses
     for n, m, big in ([(33, 33, True), (34, 33, False), (36, 35, True), (33, 40, True)] if tier == 'quick' else [(33, 33, True), (34, 33, False), (35, 40, True), (36, 36, True), (41, 33, False)]):
         for mode in ('KARATSUBA', 'DEFAULT'):
@@ -97,7 +116,7 @@ def record(src):
                 c, ops = A.make_host(src, n + m)
                 pre = project(c)
                 a, b = ops[:n], ops[n:]
-                res = getattr(ar, ADD_FN[mode])(c, list(a), list(b), big_endian=big)
+                res = _fn(ar, mode)(c, list(a), list(b), big_endian=big)
                 mode_out = 'same'
             checks = [{'op': 'mul', 'a': A.le(a, big), 'b': A.le(b, big), 'out': A.le(res, big), 'outlen': outlen}]
             return A.finish(case, c, pre, rng, res, checks, mode_out, res if mode_out == 'set' else [])
@@ -112,7 +131,7 @@ def record(src):
             pre = project(c)
             a, b = list(ops[:n]), list(ops[n:])
             a0, b0 = list(a), list(b)
-            fn = getattr(ar, ADD_FN[mode])
+            fn = _fn(ar, mode)
             r1 = fn(c, a, a, big_endian=big)      # the SAME list object twice: a * a
             r2 = fn(c, a, b, big_endian=big)      # the list is used again: a * b
             ol = 2 * n - 1 if n == 1 else 2 * n
